@@ -27,6 +27,7 @@ import (
 	"encoding/json"
 	"errors"
 	"fmt"
+	"github.com/ethereum/go-ethereum/crypto/kzg4844"
 	"math/big"
 	"math/rand"
 	"net"
@@ -360,7 +361,19 @@ func randTx(r *rand.Rand) *types.Transaction {
 	to := common.BytesToAddress(randHash(r).Bytes())
 	data := make([]byte, r.Intn(40))
 	r.Read(data)
-	switch r.Intn(3) {
+	switch r.Intn(4) {
+	case 3:
+		// a blob transaction in its consensus form (no sidecar): the one transaction type with a second accepted encoding
+		var hashes []common.Hash
+		for k := 1 + r.Intn(2); k > 0; k-- {
+			h := randHash(r)
+			h[0] = 1
+			hashes = append(hashes, h)
+		}
+		return types.NewTx(&types.BlobTx{ChainID: uint256.NewInt(1), Nonce: uint64(r.Intn(1000)), GasTipCap: uint256.NewInt(uint64(r.Intn(1e9))),
+			GasFeeCap: uint256.NewInt(uint64(1 + r.Intn(1e9))), Gas: 21000 + uint64(r.Intn(1e5)), To: to, Value: uint256.NewInt(uint64(r.Intn(1e9))), Data: data,
+			BlobFeeCap: uint256.NewInt(uint64(1 + r.Intn(1e9))), BlobHashes: hashes,
+			V: uint256.NewInt(uint64(r.Intn(2))), R: uint256.NewInt(1 + uint64(r.Intn(1e9))), S: uint256.NewInt(1 + uint64(r.Intn(1e9)))})
 	case 0:
 		return types.NewTx(&types.LegacyTx{Nonce: uint64(r.Intn(1000)), GasPrice: big.NewInt(int64(1 + r.Intn(1e9))), Gas: 21000 + uint64(r.Intn(1e5)),
 			To: &to, Value: big.NewInt(int64(r.Intn(1e9))), Data: data, V: big.NewInt(37 + int64(r.Intn(2))), R: big.NewInt(1 + int64(r.Intn(1e9))), S: big.NewInt(1 + int64(r.Intn(1e9)))})
@@ -1005,6 +1018,31 @@ func (w *world) bodyFieldMutations(r *rand.Rand, c []byte) []mutation {
 		b := rb.cp()
 		b.txs[0], b.txs[1] = b.txs[1], b.txs[0]
 		add("f-tx-swap", b)
+	}
+	// a blob transaction re-encoded in its OTHER accepted form (the transaction-pool form that carries blobs, commitments and
+	// proofs next to the transaction): the same transaction hash, other bytes - and not what the header's root commits to
+	for i, t := range rb.txs {
+		if len(t) == 0 || t[0] != types.BlobTxType {
+			continue
+		}
+		tx := new(types.Transaction)
+		if tx.UnmarshalBinary(t) != nil || tx.BlobTxSidecar() != nil {
+			continue
+		}
+		for k, sc := range []*types.BlobTxSidecar{
+			{Blobs: []kzg4844.Blob{}, Commitments: []kzg4844.Commitment{}, Proofs: []kzg4844.Proof{}},
+			{Blobs: []kzg4844.Blob{{1, 2, 3}}, Commitments: []kzg4844.Commitment{{0xc0, 0xff, 0xee}}, Proofs: []kzg4844.Proof{{0xde, 0xad}}},
+		} {
+			if k == 1 && r.Intn(4) != 0 {
+				continue // a 128 kB blob: only now and then
+			}
+			if nb, err := tx.WithBlobTxSidecar(sc).MarshalBinary(); err == nil && !bytes.Equal(nb, t) {
+				b := rb.cp()
+				b.txs[i] = nb
+				add("f-tx-pool-form", b)
+			}
+		}
+		break
 	}
 	{
 		b := rb.cp()
